@@ -136,9 +136,9 @@ Improvement round (all on seed 0, /var/tmp/imp-C35C36/dev/{n,m,r}*.py):
 Environment problems (ENOSPC, EMFILE, MemoryError ...) in a worker are
 infrastructure failures (exit 2), not violations.
 
-NEW findings of the unchanged /repo (improvement round; the check exits 1 on
-/repo until they are triaged; corpus cases banned-symlink-renamed.json and
-renamed-to-banned.json run first).  Both come from the `.git` names added to
+Findings of the improvement round, FIXED in /repo by 4eb826d (plain VIOLATIONs
+if they return; corpus cases banned-symlink-renamed.json and
+renamed-to-banned.json run first; reverting the commit gives them back).  Both come from the `.git` names added to
 the generator; both families are computed from the concrete history:
   symlink-renamed-from-banned-name   a symlink called `.git` (never exported) is renamed to a legal name without a
       change of target: _tree_to_objects only sends a symlink's blob when its content changed, so the blob is never
